@@ -15,6 +15,11 @@
 //	elseify: if c { ...return }; rest    ->  if c { ...return } else { rest }   (last such if of a function body)
 //	orsplit: if a || b { ...return }     ->  if a { ...return }; if b { ...return }
 //	rename: every local variable, parameter and receiver x -> xZ
+//	reorderdecls: the function declarations of each file in reverse order
+//	vardecl: x := e                        ->  var x = e
+//	elseflat: else { if c {A} else {B} }   ->  else if c {A} else {B}
+//	contguard: loop body ending in if c {S} -> if !(c) { continue }; S
+//	wrapcont: if c { continue }; rest       -> if !(c) { rest }   (first statement pair of a loop body)
 package main
 
 import (
@@ -77,6 +82,16 @@ func main() {
 			rewriteLists(f, orsplit)
 		case "rename":
 			renameLocals(f)
+		case "reorderdecls":
+			reorderDecls(f)
+		case "vardecl":
+			rewriteStmts(f, vardecl)
+		case "elseflat":
+			rewriteStmts(f, elseflat)
+		case "contguard":
+			loopBodies(f, contguard)
+		case "wrapcont":
+			loopBodies(f, wrapcont)
 		}
 		if nChanged == before {
 			return nil
@@ -552,3 +567,98 @@ func renameLocals(f *ast.File) {
 }
 
 var renamed = map[*ast.Ident]bool{}
+
+func reorderDecls(f *ast.File) {
+	var idx []int
+	var fns []ast.Decl
+	for i, d := range f.Decls {
+		if fd, ok := d.(*ast.FuncDecl); ok && fd.Name.Name != "init" {
+			idx = append(idx, i)
+			fns = append(fns, d)
+		}
+	}
+	if len(fns) < 2 {
+		return
+	}
+	for k, i := range idx {
+		f.Decls[i] = fns[len(fns)-1-k]
+	}
+	nChanged += len(fns)
+}
+
+func vardecl(s ast.Stmt) ast.Stmt {
+	as, ok := s.(*ast.AssignStmt)
+	if !ok || as.Tok != token.DEFINE || len(as.Lhs) != 1 || len(as.Rhs) != 1 {
+		return s
+	}
+	id, ok := as.Lhs[0].(*ast.Ident)
+	if !ok || id.Name == "_" {
+		return s
+	}
+	nChanged++
+	return &ast.DeclStmt{Decl: &ast.GenDecl{Tok: token.VAR, Specs: []ast.Spec{&ast.ValueSpec{Names: []*ast.Ident{id}, Values: []ast.Expr{as.Rhs[0]}}}}}
+}
+
+func elseflat(s ast.Stmt) ast.Stmt {
+	is, ok := s.(*ast.IfStmt)
+	if !ok {
+		return s
+	}
+	for cur := is; cur != nil; {
+		eb, ok := cur.Else.(*ast.BlockStmt)
+		if ok && len(eb.List) == 1 {
+			if inner, ok := eb.List[0].(*ast.IfStmt); ok {
+				cur.Else = inner
+				nChanged++
+				cur = inner
+				continue
+			}
+		}
+		next, _ := cur.Else.(*ast.IfStmt)
+		cur = next
+	}
+	return s
+}
+
+func loopBodies(f *ast.File, fn func([]ast.Stmt) []ast.Stmt) {
+	ast.Inspect(f, func(x ast.Node) bool {
+		switch l := x.(type) {
+		case *ast.ForStmt:
+			l.Body.List = fn(l.Body.List)
+		case *ast.RangeStmt:
+			l.Body.List = fn(l.Body.List)
+		}
+		return true
+	})
+}
+
+func contguard(list []ast.Stmt) []ast.Stmt {
+	if len(list) == 0 {
+		return list
+	}
+	is, ok := list[len(list)-1].(*ast.IfStmt)
+	if !ok || is.Else != nil || is.Init != nil || declares(is.Body.List) || hasBreak(is.Body.List) && false {
+		return list
+	}
+	nChanged++
+	out := append([]ast.Stmt{}, list[:len(list)-1]...)
+	out = append(out, &ast.IfStmt{Cond: not(is.Cond), Body: &ast.BlockStmt{List: []ast.Stmt{&ast.BranchStmt{Tok: token.CONTINUE}}}})
+	return append(out, is.Body.List...)
+}
+
+func wrapcont(list []ast.Stmt) []ast.Stmt {
+	for i, s := range list {
+		is, ok := s.(*ast.IfStmt)
+		if !ok || is.Else != nil || is.Init != nil || len(is.Body.List) != 1 || i == len(list)-1 {
+			continue
+		}
+		br, ok := is.Body.List[0].(*ast.BranchStmt)
+		if !ok || br.Tok != token.CONTINUE || br.Label != nil {
+			continue
+		}
+		nChanged++
+		out := append([]ast.Stmt{}, list[:i]...)
+		return append(out, &ast.IfStmt{Cond: not(is.Cond), Body: &ast.BlockStmt{List: append([]ast.Stmt{}, list[i+1:]...)}})
+	}
+	return list
+}
